@@ -57,7 +57,13 @@ func (g *Gen) preludeText(strMode bool) string {
 	for _, s := range g.Specs.SMT {
 		sb.WriteString(s + "\n")
 	}
+	for _, n := range sortedKeys(g.Specs.SpecFuns) {
+		if sf := g.Specs.SpecFuns[n]; sf.Declare {
+			sb.WriteString(fmt.Sprintf("(declare-fun %s (%s) %s)\n", sf.Name, strings.Join(sf.Args, " "), sf.Ret))
+		}
+	}
 	sb.WriteString(g.tagDecls())
+	sb.WriteString(g.s.zarrDecls(strMode))
 	if strMode {
 		for _, v := range g.s.litList {
 			sb.WriteString(fmt.Sprintf("(define-fun %s () String %s)\n", g.s.lits[v], smtString(v)))
